@@ -22,7 +22,11 @@ HOSTILE = [': x', '# c', '- a', '? q', '?x', '| b', '> f', "it's", '"dq"', 'back
            'x' * 120, 'semi;colon', 'comma, sep', '', ' ', 'line\r\nwin', 'nbsp\u00a0x', 'ls\u2028x', '=', '<<', 'a\\nb',
            "'", '"', '\\', 'C:\\dir', '-', '--- doc', '... end', 'key: |',
            # plain scalars that YAML 1.1 reads as booleans / numbers and YAML 1.2 as strings
-           'on', 'off', 'y', 'n', 'Yes', 'NO', 'On', '1:30', '0o17', '1_000', '.inf', '+1']
+           'on', 'off', 'y', 'n', 'Yes', 'NO', 'On', '1:30', '0o17', '1_000', '.inf', '+1',
+           # text that is not in Unicode normal form C (decomposed accents, compatibility signs): it stays as it is
+           'arre\u0302te\u0301', 'mesure \u2126', '\u212b ngstr\u00f6m', 'K\u212a', 'a\u0308\u0323']
+# (very long single-line texts, with runs of blanks far to the right: no line is ever folded)
+LONG = ['x' * 4100 + '  y  ' + 'z' * 50, ('ab  ' * 1600) + 'c', 'w' * 9000 + '   end']
 NEL = 'nel\x85x'
 
 
@@ -31,6 +35,8 @@ def hostile(rnd, allow_empty=False, no_outer_space=False):
         s = rnd.choice(HOSTILE)
         if getattr(rnd, '_nel', False) and rnd.random() < 0.15:
             s = NEL
+        if rnd.random() < 0.004:
+            s = rnd.choice(LONG)
         if rnd.random() < 0.3:
             s = s + rnd.choice(HOSTILE)
         if rnd.random() < 0.1:
